@@ -251,3 +251,110 @@ Example C10_exit_replacement_nonvacuous :
   | _ => False
   end.
 Proof. vm_compute. repeat split. Qed.
+
+(* ---------------- MatchesNode: a replaced pattern operand takes effect in what is compiled and run.
+   The parser pre-compiles a literal pattern into MatchesNode.Regexp (`re` of EMatches); the walker
+   replaces the Right slot and keeps the field (set_children), which is then STALE.  The compiler
+   repaired by the `fix:` commit "MatchesNode looks at the right operand again" and the reference
+   semantics use the field only through Ast.re_const: while the right operand still IS the literal
+   the field was compiled from. *)
+Require Import X.Sem.Prim X.Sem.Sem X.Sem.MatchesFacts X.BC.Instr X.BC.Compiler X.BC.VM X.BC.RunProofs X.BC.MatchesPatch.
+Require X.BC.Schemes X.gen.GenSchemes X.Bridge.BrSchemesMatches.
+
+(* the node as the walker rebuilds it from walked children l', r' (any replacement of either slot, any
+   environment, closure context and state): its reference value is the DYNAMIC reading of
+   `l' matches r'` - left operand, right operand, the pattern is the value of the right operand -
+   and, unless r' is again the very literal p, its code is left, right, OpMatches *)
+Theorem C10_matches_pattern_replacement_effective :
+  forall fe cfg env ctx mapenv a p l b l' r' s,
+  eval fe cfg env ctx (set_children (EMatches a (Some p) l (EStr b p)) [l'; r']) s
+    = matches_dyn fe cfg env ctx a l' r' s
+  /\ (re_const (Some p) r' = None ->
+      compile mapenv (set_children (EMatches a (Some p) l (EStr b p)) [l'; r'])
+      = compile mapenv l' ++ compile mapenv r' ++ at_ (aloc a) [IMatches]).
+Proof. exact matches_walker_rebuild. Qed.
+Print Assumptions C10_matches_pattern_replacement_effective.
+
+(* the reading that names no field: the Regexp field NEVER decides the reference value *)
+Theorem C10_matches_dynamic_reading :
+  forall fe cfg env ctx a re l r s,
+  eval fe cfg env ctx (EMatches a re l r) s = matches_dyn fe cfg env ctx a l r s.
+Proof. exact eval_matches_dyn. Qed.
+Print Assumptions C10_matches_dynamic_reading.
+
+Theorem C10_matches_patched_value :
+  forall fe cfg env ctx a p l b r' s,
+  eval fe cfg env ctx (set_children (EMatches a (Some p) l (EStr b p)) [l; r']) s
+  = eval fe cfg env ctx (EMatches a None l r') s.
+Proof. exact matches_patch_value. Qed.
+Print Assumptions C10_matches_patched_value.
+
+Theorem C10_matches_patched_code :
+  forall mapenv a p l b r', re_const (Some p) r' = None ->
+  compile mapenv (set_children (EMatches a (Some p) l (EStr b p)) [l; r'])
+  = compile mapenv (EMatches a None l r').
+Proof. exact matches_patch_code. Qed.
+Print Assumptions C10_matches_patched_code.
+
+(* the side condition is decidable and excludes exactly one replacement: the literal p itself *)
+Theorem C10_matches_side_condition :
+  forall p r', re_const (Some p) r' = None <-> (forall b, r' <> EStr b p).
+Proof. exact matches_patch_side_condition. Qed.
+Print Assumptions C10_matches_side_condition.
+
+(* EVERY replacement (that literal included): running the code compiled from the patched node on the
+   model VM returns the reference result of `l matches r'` without any field (through C01's
+   compile_correct; stop_is_locatable excludes only the failure class reserved for malformed bytecode) *)
+Theorem C10_matches_patched_run :
+  forall fe cfg env a p l b r',
+  compilable l = true -> compilable r' = true ->
+  stop_is_locatable (eval fe cfg env [] (EMatches a None l r') rs0) ->
+  exists d0, forall d, (d0 <= d)%nat ->
+    run_code fe cfg env (compile (c_mapenv cfg) (set_children (EMatches a (Some p) l (EStr b p)) [l; r'])) d
+    = Some (eval fe cfg env [] (EMatches a None l r') rs0).
+Proof. exact matches_patch_run. Qed.
+Print Assumptions C10_matches_patched_run.
+
+(* tie to the code BY REGENERATION: the MatchesNode method of compiler/compiler.go as read on this run
+   (gen/GenSchemes.v: type assertion on node.Right, Regexp != nil, Regexp.String() == the literal's
+   Value) is the model rule, for every field and every right operand; with a stale field and a
+   replaced operand it compiles the replacement.  The guard before the repair (`node.Regexp != nil`)
+   fails this lemma. *)
+Theorem C10_matches_method_is_source :
+  forall rec mapenv a re l r,
+  rec l = Some (compile mapenv l) -> (re_const re r = None -> rec r = Some (compile mapenv r)) ->
+  X.BC.Schemes.interp_code X.gen.GenSchemes.schemes rec mapenv (EMatches a re l r)
+  = Some (compile mapenv (EMatches a re l r)).
+Proof. exact X.Bridge.BrSchemesMatches.matches_scheme_is_model. Qed.
+Print Assumptions C10_matches_method_is_source.
+
+Theorem C10_matches_method_compiles_replacement :
+  forall rec mapenv a p l r', re_const (Some p) r' = None ->
+  rec l = Some (compile mapenv l) -> rec r' = Some (compile mapenv r') ->
+  X.BC.Schemes.interp_code X.gen.GenSchemes.schemes rec mapenv (EMatches a (Some p) l r')
+  = Some (compile mapenv l ++ compile mapenv r' ++ at_ (aloc a) [IMatches]).
+Proof. exact X.Bridge.BrSchemesMatches.matches_scheme_compiles_replacement. Qed.
+Print Assumptions C10_matches_method_compiles_replacement.
+
+(* historical (finding fixed in compiler.MatchesNode), about the OLD rule kept as old_matches_code:
+   "abc" matches "^a" with the literal replaced by "^z" ran to true; repaired code, model and
+   reference give false *)
+Example C10_fixed_matches_stale_regexp_old_rule :
+  patch_witness = EMatches ann0 (Some "^a"%string) (EStr ann0 "abc") (EStr ann0 "^z") /\
+  run_code patch_fe patch_cfg VNil (old_matches_code false patch_witness) 10%nat = Some (Done (VBool true) rs0) /\
+  run_code patch_fe patch_cfg VNil (compile false patch_witness) 10%nat = Some (Done (VBool false) rs0) /\
+  eval patch_fe patch_cfg VNil [] patch_witness rs0 = Done (VBool false) rs0.
+Proof. exact old_rule_ignored_replacement. Qed.
+
+(* non-vacuity of the side condition: another literal, an identifier; and the one excluded replacement *)
+Example C10_matches_side_condition_nonvacuous :
+  re_const (Some "^a"%string) (EStr ann0 "^z") = None /\
+  re_const (Some "^a"%string) (EIdent ann0 "P" false) = None /\
+  re_const (Some "^a"%string) (EStr (at_loc (1, 5)) "^a") = Some "^a"%string.
+Proof. exact patch_side_condition_examples. Qed.
+
+Example C10_matches_method_nonvacuous :
+  X.BC.Schemes.interp_code X.gen.GenSchemes.schemes (fun e => Some (compile false e)) false
+    (EMatches ann0 (Some "^a"%string) (EStr ann0 "abc") (EStr ann0 "^z"))
+  = Some [(IPush (VStr "abc"), noloc); (IPush (VStr "^z"), noloc); (IMatches, noloc)].
+Proof. exact X.Bridge.BrSchemesMatches.matches_scheme_example. Qed.
